@@ -102,3 +102,9 @@ package object
 
 //@ func (a *Array) Dump
 //@   loop 0: invariant out.Len() >= 8
+
+// sortedKeys: the keys of the object, made canonical by sort.Strings
+//@ func (o *Obj) sortedKeys
+//@   ensures len(result) >= 0
+//@   modifies nothing
+//@   loop 0: deterministic-by-contract
